@@ -45,10 +45,27 @@ def jobs(tier, seed):
             for b in group[i + 1 :]:
                 if table.classes(a) != table.classes(b) or table.positions(a) != table.positions(b):
                     cross.append((a, b))
-    for a, b in rnd.sample(cross, min(len(cross), 60 if tier == "thorough" else 10)) + [("DE", "GB"), ("CF", "KM")]:
+    for a, b in rnd.sample(cross, min(len(cross), 60 if tier == "thorough" else 10)) + [("DE", "GB"), ("CF", "KM"), ("FR", "MC")]:
         out.append({"kind": "pair", "a": a, "b": b})
         out.append({"kind": "pair", "a": b, "a2": 1, "b": a})
+        out.append({"kind": "pair", "a": a, "b": b, "share": True})  # both texts carry the very same BBAN (a's structure)
     out.append({"kind": "bic"})
+    # generate() histories: countries sharing a structure string but publishing different positions, plus same-country
+    by_spec = {}
+    for cc in ccs:
+        by_spec.setdefault(table.countries()[cc]["bban_spec"], []).append(cc)
+    gp = [(a, b) for g in by_spec.values() for a in g for b in g if a != b and table.positions(a) != table.positions(b)]
+    for a, b in (gp if tier == "thorough" else rnd.sample(gp, min(len(gp), 8))) + [("DE", "DE"), ("PT", "ST"), ("ST", "PT"), ("FR", "YT")]:
+        out.append({"kind": "genpair", "a": a, "b": b})
+    # registry look-ups must leave the registry as it was
+    from spec import registry_ref as R
+
+    idx = R.by_code(table.banks(), True)
+    multi = sorted(k for k, v in idx.items() if len(v) > 1 and k[0] in table.countries())
+    single = sorted(k for k, v in idx.items() if len(v) == 1 and k[0] in table.countries())
+    keys = rnd.sample(multi, min(len(multi), 200 if tier == "thorough" else 40)) + rnd.sample(single, 20)
+    for i in range(0, len(keys), 10):
+        out.append({"kind": "lookups", "keys": [list(k) for k in keys[i : i + 10]]})
     return out
 
 
@@ -83,7 +100,12 @@ def run_job(job, res):
     if job["kind"] == "havoc":
         run_havoc(job["m"], res)
     elif job["kind"] == "pair":
-        run_pair(job["a"], job["b"], res)
+        run_pair(job["a"], job["b"], res, job.get("share", False))
+    elif job["kind"] == "genpair":
+        run_genpair(job["a"], job["b"], res)
+    elif job["kind"] == "lookups":
+        for cc, code in job["keys"]:
+            run_lookup(cc, code, res)
     else:
         run_bic(res)
 
@@ -134,56 +156,96 @@ def run_havoc(m, res):
 ATTRS = ("bank_code", "branch_code", "account_code", "national_checksum_digits")
 
 
-def observe(text, kw=None):
+_NBANKS = {}
+
+
+def small_registry(cc):
+    if not _NBANKS:
+        for e in table.banks():
+            _NBANKS[e.get("country_code")] = _NBANKS.get(e.get("country_code"), 0) + 1
+    return _NBANKS.get(cc, 0) <= 400
+
+
+def observe(text, kw=None, with_bank=False):
     """parse-and-observe: constructor outcome and, on success, the component accessors"""
     from schwifty import IBAN
 
     r = H_try(lambda: IBAN(text, **(kw or {})))
     if r[0] != "ret":
         return [r]
-    return [r] + [H_try(lambda a=a: getattr(r[1], a)) for a in ATTRS]
+    out = [r] + [H_try(lambda a=a: getattr(r[1], a)) for a in ATTRS]
+    if with_bank:
+        out.append(H_try(lambda: r[1].bank_name))  # possibly a merged look-up result (compared without forking)
+    return out
 
 
-def frame_violation(pre_objs):
-    """a write of the current path that hits registry data or a pre-existing value object"""
+def merged_neq(u, v):
+    """z3 condition: two (possibly merged) look-up results differ"""
+    def alts(x):
+        return x.alts if isinstance(x, rt.Merged) else [(z3.BoolVal(True), x)]
+
+    a2 = {}
+    for d, val in alts(v):
+        a2.setdefault(rt.Merged._gkey(val), []).append(d)
+    terms = []
+    for c, val in alts(u):
+        same = a2.get(rt.Merged._gkey(val), [])
+        terms.append(z3.And(c, z3.Not(z3.Or(same))) if same else c)
+    return z3.simplify(z3.Or(terms)) if terms else False
+
+
+def frame_violation(pre_objs, undo=None):
+    """a write of the current path that changed registry data or a pre-existing value object"""
     reg = registry_ids()
     for kind, oid, tname, key in ctx.writes:
         if oid in reg:
-            return f"{kind} on a registry {tname} (key {key!r})"
+            snap = undo.containers.get(oid) if undo is not None else None
+            if snap is not None and _same_content(snap[0], snap[1]):
+                continue  # e.g. an in-place operation that left the content as it was
+            return f"{kind} changed a registry {tname}"
         if oid in pre_objs:
             return f"{kind} on a previously created {tname} object (attribute {key!r})"
     return None
 
 
-def run_pair(cca, ccb, res):
+def _same_content(obj, snap):
+    if isinstance(obj, list):
+        return len(obj) == len(snap) and all(a is b for a, b in zip(obj, snap))
+    if isinstance(obj, dict):
+        return list(obj.keys()) == list(snap.keys()) and all(obj[k] is snap[k] for k in obj)
+    return obj == snap
+
+
+def run_pair(cca, ccb, res, share=False):
     holder = {}
     clsa, clsb = table.classes(cca), table.classes(ccb)
 
     def fn():
         xa = [ord(cca[0]), ord(cca[1]), rt.digit_char("xa0"), rt.digit_char("xa1")] + bban_chars(clsa, "xa")
-        xb = [ord(ccb[0]), ord(ccb[1]), rt.digit_char("xb0"), rt.digit_char("xb1")] + bban_chars(clsb, "xb")
+        xb = [ord(ccb[0]), ord(ccb[1]), rt.digit_char("xb0"), rt.digit_char("xb1")] + (xa[4:] if share else bban_chars(clsb, "xb"))
         for c in xa[4:] + xb[4:]:
             if len(c.classes) > 1 and (cca in ("IT", "SM") or ccb in ("IT", "SM")):
                 ctx.add(c.guards[0])
         holder.update(xa=xa, xb=xb)
         ta, tb = H.symstr(xa), H.symstr(xb)
+        wb = small_registry(cca) and small_registry(ccb)
         rt.MONITOR["on"] = True
         ctx.writes = []
         ctx.undo = rt.UndoLog()
         lru = {k: list(v) for k, v in ctx.path_cache.items() if k[0] == "lru"}
         try:
-            r1 = observe(tb)
+            r1 = observe(tb, with_bank=wb)
         finally:
             ctx.undo.restore()
             ctx.undo = None
             for k in [k for k in ctx.path_cache if k[0] == "lru"]:
                 ctx.path_cache[k] = lru.get(k, [])
         pre = {id(o[1]) for o in r1 if o[0] == "ret" and isinstance(o[1], rt.StrBase)}
-        fo = observe(ta)
+        fo = observe(ta, with_bank=wb)
         pre |= {id(o[1]) for o in fo if o[0] == "ret" and isinstance(o[1], rt.StrBase)}
         bad_frame = frame_violation(set())
         ctx.writes = []
-        r2 = observe(tb)
+        r2 = observe(tb, with_bank=wb)
         bad_frame = bad_frame or frame_violation(pre)
         rt.MONITOR["on"] = False
         return r1, r2, bad_frame
@@ -199,11 +261,14 @@ def run_pair(cca, ccb, res):
                 bad = f"second evaluation {'succeeds' if len(r2) > 1 else 'fails'} while the fresh one {'succeeds' if len(r1) > 1 else 'fails'}" if ctx.final() else None
             else:
                 for i, (u, v) in enumerate(zip(r1, r2)):
-                    d = outcome_neq(u, v)
+                    if u[0] == v[0] == "ret" and (isinstance(u[1], rt.Merged) or isinstance(v[1], rt.Merged)):
+                        d = merged_neq(u[1], v[1])
+                    else:
+                        d = outcome_neq(u, v)
                     if d is False or (not isinstance(d, bool) and z3.is_false(d)):
                         continue
                     if (d is True and ctx.final()) or (d is not True and ctx.final(d)):
-                        bad = ("constructor outcome" if i == 0 else ATTRS[i - 1]) + " differs from the evaluation on fresh state"
+                        bad = ("constructor outcome" if i == 0 else (ATTRS + ("bank_name",))[i - 1]) + " differs from the evaluation on fresh state"
                         break
         elif not ctx.final():
             bad = None
@@ -277,3 +342,135 @@ def run_bic(res):
     finally:
         rt.MONITOR["on"] = False
         ctx.undo = None
+
+
+def run_genpair(cca, ccb, res):
+    """IBAN.generate for country a, then for country b, versus generate for b on pristine state"""
+    from harness.c08 import widths
+
+    holder = {}
+
+    def comps(cc, tag):
+        cls = table.classes(cc)
+        pos = table.positions(cc)
+        out = {}
+        for k in ("bank_code", "branch_code", "account_code"):
+            a, b = pos.get(k, (0, 0))
+            chars = []
+            for i in range(a, b):
+                kind = cls[i]
+                chars.append(rt.digit_char(f"{tag}{k[:2]}{i}") if kind == "n" else rt.upper_char(f"{tag}{k[:2]}{i}") if kind == "a" else rt.digit_char(f"{tag}{k[:2]}{i}"))
+            out[k] = chars
+        return out
+
+    def gen(cc, c):
+        from schwifty import IBAN
+
+        r = H_try(lambda: IBAN.generate(cc, H.symstr(c["bank_code"]) if c["bank_code"] else "", H.symstr(c["account_code"]) if c["account_code"] else "", H.symstr(c["branch_code"]) if c["branch_code"] else ""))
+        if r[0] != "ret":
+            return [r]
+        return [r] + [H_try(lambda a=a: getattr(r[1], a)) for a in ATTRS]
+
+    def fn():
+        ca, cb = comps(cca, "p"), comps(ccb, "q")
+        holder.update(ca=ca, cb=cb)
+        ctx.undo = rt.UndoLog()
+        lru = {k: list(v) for k, v in ctx.path_cache.items() if k[0] == "lru"}
+        try:
+            r1 = gen(ccb, cb)
+        finally:
+            ctx.undo.restore()
+            ctx.undo = None
+            for k in [k for k in ctx.path_cache if k[0] == "lru"]:
+                ctx.path_cache[k] = lru.get(k, [])
+        gen(cca, ca)
+        return r1, gen(ccb, cb)
+
+    def on_path(out):
+        if out[0] == "exc":
+            raise rt.Unmodelled(f"genpair harness raised {type(out[1]).__name__}")
+        r1, r2 = out[1]
+        res["obligations"] += 1
+        bad = None
+        if len(r1) != len(r2):
+            bad = "second generate() differs in outcome from generate() on fresh state" if ctx.final() else None
+        else:
+            for i, (u, v) in enumerate(zip(r1, r2)):
+                d = outcome_neq(u, v)
+                if d is False or (not isinstance(d, bool) and z3.is_false(d)):
+                    continue
+                if (d is True and ctx.final()) or (d is not True and ctx.final(d)):
+                    bad = ("generated IBAN" if i == 0 else ATTRS[i - 1]) + " differs from generate() on fresh state"
+                    break
+        if bad:
+            mdl = ctx.model()
+            enc = lambda c: {k: "".join(map(chr, H.model_cps(mdl, v))) for k, v in c.items()}  # noqa: E731
+            res["violations"].append({"property": "C15", "what": f"after IBAN.generate for {cca}, IBAN.generate for {ccb}: {bad}", "mode": "violation",
+                                      "call": {"steps": [["call", "spec.replay_preds.c15_genpair", [cca, enc(holder["ca"]), ccb, enc(holder["cb"])], {}]]},
+                                      "pred": {"kind": "value_is_not", "value": {"cp": [111, 107]}}, "engine": {"outcome": "return"}})
+
+    try:
+        rt.explore(fn, on_path)
+    finally:
+        ctx.undo = None
+
+
+def run_lookup(cc, code, res):
+    """bank look-ups for one listed key under the write monitor: the registry must be left as it was"""
+    from harness.c02 import bban_chars as _bc
+    from harness.c17 import key_fields
+
+    cls = table.classes(cc)
+    kf = key_fields(cc)
+    if len(kf) != len(code):
+        return
+    holder = {}
+
+    def fn():
+        from schwifty import IBAN
+        from schwifty.bic import BIC
+
+        b = _bc(cls)
+        for j, ch in zip(kf, code):
+            b[j] = ord(ch)
+        if cc in ("IT", "SM"):
+            for c in b[11:]:
+                if not isinstance(c, int):
+                    ctx.add(c.guards[0])
+        holder["b"] = b
+        rt.MONITOR["on"] = True
+        ctx.writes = []
+        ctx.undo = rt.UndoLog()
+        try:
+            x = H_try(lambda: IBAN.from_bban(cc, H.symstr(b)))
+            if x[0] == "ret":
+                H_try(lambda: x[1].bic)
+                H_try(lambda: x[1].bank_name)
+            H_try(lambda: BIC.candidates_from_bank_code(cc, code))
+            H_try(lambda: BIC.from_bank_code(cc, code))
+            return frame_violation(set(), ctx.undo)
+        finally:
+            ctx.undo.restore()
+            ctx.undo = None
+            rt.MONITOR["on"] = False
+
+    def on_path(out):
+        res["obligations"] += 1
+        bad = out[1] if out[0] == "ret" else f"look-up harness raised {type(out[1]).__name__}"
+        if bad and ctx.final():
+            cps = H.model_cps(ctx.model(), holder["b"])
+            res["violations"].append({"property": "C15", "what": f"look-ups for bank ({cc},{code}): {bad}", "mode": "violation",
+                                      "call": {"steps": [["call", "spec.replay_preds.c15_lookup", [cc, code, H.cp_enc(cps)], {}]]},
+                                      "pred": {"kind": "value_is_not", "value": {"cp": [111, 107]}}, "engine": {"outcome": "return"}})
+
+    try:
+        rt.explore(fn, on_path)
+    finally:
+        rt.MONITOR["on"] = False
+        ctx.undo = None
+
+
+try:  # the registry id set must exist before any path runs (ids are only meaningful for live objects)
+    registry_ids()
+except Exception:  # noqa: BLE001
+    pass
